@@ -128,15 +128,21 @@ class CutMet(Obligation):
         except Exception as ex:
             return {'raised': True, 'how': type(ex).__name__}
         obs = {'raised': False, 'steps': int(k)}
-        if k * B > nb:
+        H = getattr(self, '_H', 0)
+        if H + k * B > nb:
             viol['whole-steps-only'] = \
                 '%d steps exposed but %d bytes hold only %d' % (
-                    k, nb, nb // B)
+                    k, nb, max(nb - H, 0) // B)
             return obs
         if self.full and k != len(tflags):
             viol['all-steps'] = '%d steps exposed, %d encoded' % (
                 k, len(tflags))
         for name, arr in vals.items():
+            if name not in data:
+                viol['data-of-full-file'] = \
+                    'variable %s exposed, the full file has %s' % (
+                        name, sorted(data))
+                continue
             exp = data[name][:k]
             if tuple(arr.shape) != tuple(exp.shape) or \
                     not np.array_equal(
@@ -450,6 +456,12 @@ class CutWind(CutMet):
             raise
 
     def sym(self, ctx, h):
+        self._sym_with(ctx, h, 'wind')
+
+    def real(self, inputs):
+        return self._real_with(inputs, 'wind')
+
+    def _sym_with(self, ctx, h, clsname):
         sp = loader.TwinSpace(stubs={
             'PseudoNetCDF.pncwarn': common.warn_stub(common.WarnRec())})
         mod = sp.twin(self.modname)
@@ -467,7 +479,8 @@ class CutWind(CutMet):
             viol = {}
             sys.setprofile(sp.profile())
             try:
-                obs = self._run(lambda: self._open(mod.wind, path), nb, viol)
+                obs = self._run(lambda: self._open(getattr(mod, clsname),
+                                                   path), nb, viol)
             finally:
                 sys.setprofile(None)
         finally:
@@ -489,7 +502,8 @@ class CutWind(CutMet):
             viol['terminates'] = str(ex)
             return {'raised': False}
 
-    def real(self, inputs):
+    def _real_with(self, inputs, clsname):
+        import importlib
         import warnings
         blob, data, tflags, B = self.blob_and_data()
         L = int(frac_of(inputs.get('L', len(blob))))
@@ -501,8 +515,8 @@ class CutWind(CutMet):
                 f.write(blob[:L])
             with warnings.catch_warnings():
                 warnings.simplefilter('ignore')
-                from PseudoNetCDF.camxfiles.wind.Memmap import wind
-                obs = self._run(lambda: self._open(wind, path), L, viol)
+                cls = getattr(importlib.import_module(self.modname), clsname)
+                obs = self._run(lambda: self._open(cls, path), L, viol)
         finally:
             import shutil
             shutil.rmtree(d, ignore_errors=True)
@@ -512,6 +526,75 @@ class CutWind(CutMet):
         if not obs['raised'] and 'steps' in obs:
             o['steps'] = obs['steps']
         return {'obs': o, 'violations': viol, 'L': L}
+
+
+class CutCloudRain(CutWind):
+    """cloud/rain memmap reader on the prefix [0, L) of a reference file"""
+    modname = 'PseudoNetCDF.camxfiles.cloud_rain.Memmap'
+    KEYS = {5: ['CLOUD', 'RAIN', 'SNOW', 'GRAUPEL', 'COD'],
+            3: ['CLOUD', 'PRECIP', 'COD']}
+
+    def __init__(self, nvars, nz, T, rows, cols, rec=None, zero=False, h0=22):
+        self.nvars, self.zero = nvars, zero
+        CutWind.__init__(self, nz, T, rows, cols, rec, h0)
+        self.name = 'cut-cloud_rain[nvars=%d,nz=%d,T=%d,rows=%d,cols=%d,' \
+            '%srecord=%s]' % (nvars, nz, T, rows, cols,
+                              'zero-payload,' if zero else '', rec)
+
+    def layout(self):
+        return layouts.CloudRainLayout(self.nvars, self.nz, self.T,
+                                       self.rows, self.cols, 4365,
+                                       self.h0 * 100)
+
+    def _starts(self):
+        return self.layout().record_starts()
+
+    def blob_and_data(self):
+        if self._bd is None:
+            lay = self.layout()
+            d = tempfile.mkdtemp(prefix='verif_met_')
+            p = os.path.join(d, 'full.bin')
+            try:
+                arr = lay.write_real(p, self.zero)
+                with open(p, 'rb') as f:
+                    blob = f.read()
+            finally:
+                os.remove(p)
+                os.rmdir(d)
+            data = dict((k, arr[:, :, i]) for i, k in enumerate(
+                self.KEYS[self.nvars]))
+            tfl = [(cent(dd), int(tt) * 100) for dd, tt in lay.times]
+            self._bd = (blob, data, tfl, lay.B)
+            self._H = lay.H
+        return self._bd
+
+    def _open(self, cls, path):
+        def go():
+            f = cls(path, self.rows, self.cols)
+            k = len(f.dimensions['TSTEP'])
+            keys = [v for v in f.variables.keys() if v != 'TFLAG']
+            vals = dict((v, np.asarray(f.variables[v][:])) for v in keys)
+            tf = np.asarray(f.variables['TFLAG'][:])[:, 0, :]
+            return k, vals, tf
+        return _with_alarm(self.LIMIT, go)
+
+    def _verdict_data(self):
+        pass
+
+    def _cls(self, mod):
+        return mod.cloud_rain
+
+    def sym(self, ctx, h):
+        # constants the known-findings region refers to
+        lay = self.layout()
+        other = 16 + (8 - self.nvars) * self.nz * lay.P
+        ctx.inputs['H'] = z3.IntVal(lay.H)
+        ctx.inputs['step_own'] = z3.IntVal(lay.B)
+        ctx.inputs['step_other'] = z3.IntVal(other)
+        self._sym_with(ctx, h, 'cloud_rain')
+
+    def real(self, inputs):
+        return self._real_with(inputs, 'cloud_rain')
 
 
 class FullWind(CutWind):
@@ -547,6 +630,13 @@ def cut_obligations(tier):
                                     (3, 2, 1, 3)]):
         for rec in range((2 * nz + 2) * T):
             obs.append(CutWind(nz, T, rows, cols, rec))
+    for nvars, nz, T, rows, cols in (
+            [(5, 1, 3, 1, 2), (3, 2, 2, 1, 2)] if tier == 'quick' else
+            [(5, 1, 3, 1, 2), (3, 2, 2, 1, 2), (5, 2, 2, 2, 2),
+             (3, 1, 4, 1, 3)]):
+        n = 1 + T * (1 + nvars * nz)
+        for rec in range(n):
+            obs.append(CutCloudRain(nvars, nz, T, rows, cols, rec))
     return obs
 
 
